@@ -208,7 +208,9 @@ environments, from any counter state, for any continuation of the buffer, and fo
 least the marshal budget `fm`**: if `marshal_one` emits `bs` and numbers table entries `c .. c'`, then `unmarshal_one` reads
 exactly `bs`, returns the same value and appends exactly those entries - function objects with the same funcdef and
 environment indices, funcdefs field by field (flags, arities, constants, symbol map, bytecode words, environment indices,
-sub-funcdefs, source map, closure bitset), environments value by value.  With `fu = fm` this is "whatever can be marshalled
+sub-funcdefs, source map, closure bitset), environments value by value (detached) or with their fiber (still on a stack),
+suspended fibers frame by frame (flags, previous frame, pc offset, function, frame environment, every stack slot), with
+their environment table, child fiber and last value.  With `fu = fm` this is "whatever can be marshalled
 can be unmarshalled" at the recursion limit; it needs the depth discipline `CodeObligations.unmarshal_never_deeper` of the
 current source (false before fix a382df0). -/
 theorem roundtrip_code (T : Heap) (vf : Def → Bool) (hT : HeapCWF vf T) (fm fu : Nat) (hfu : fm ≤ fu) (c : Ct) (x : Val)
@@ -261,7 +263,7 @@ example : marshalC topFuel exCode (.ref 2) ⟨0, 0, 0⟩ =
            215, 1, 205, 0, 64, 0, 0, 1, 0, 0, 0, 1, 1, 1, 129, 44, 3, 0, 0, 0, 191, 255, 219, 0], ⟨3, 2, 1⟩) := by decide
 
 example : (unmarshalCode (fun _ => true) [210, 2, 0, 215, 1, 205, 0, 64, 0, 0, 1, 0, 0, 0, 0, 2, 1, 45, 1, 0, 0, 3, 0, 0, 0, 191, 255, 0, 2, 5, 201,
-           215, 1, 205, 0, 64, 0, 0, 1, 0, 0, 0, 1, 1, 1, 129, 44, 3, 0, 0, 0, 191, 255, 219, 0]).map (·.1) = some (.ref 2) := by decide
+           215, 1, 205, 0, 64, 0, 0, 1, 0, 0, 0, 1, 1, 1, 129, 44, 3, 0, 0, 0, 191, 255, 219, 0]).map (·.1) = some (.ref 2) := by decide +kernel
 
 /-- the hypotheses of the theorems hold for it -/
 example : HeapCWF (fun _ => true) exCode := by
@@ -279,6 +281,20 @@ example : HeapCWF (fun _ => true) exCode := by
     simp only [exCode, List.mem_cons, List.mem_nil_iff, or_false] at he
     subst he
     simp [EnvWF, ValWF, Marsh.Int32]
+
+/-- non-vacuity for fibers: a fiber suspended in one frame of a two-instruction function, one stack slot; wire bytes as the
+model (and, on generated fibers, janet) produces them; `FiberWF` holds for it -/
+def exFiber : Heap :=
+  { objs := [.fiber 8 4 9 9 100 [⟨2, 0, 1, .ref 1, none, [.int 10]⟩] none none (.int 10), .func 0 []],
+    defs := [⟨0, 1, 0, 0, 0, none, none, [], [], [3, 3], [], [], [], []⟩],
+    envs := [] }
+
+example : marshalC topFuel exFiber (.ref 0) ⟨0, 0, 0⟩ =
+    some ([204, 8, 4, 9, 9, 100, 2, 0, 1, 215, 0, 0, 1, 0, 0, 0, 0, 2, 3, 0, 0, 0, 3, 0, 0, 0, 10, 10], ⟨2, 1, 0⟩) := by decide +kernel
+
+example : FiberWF 8 4 9 9 100 [⟨2, 0, 1, .ref 1, none, [.int 10]⟩] none none (.int 10) := by
+  refine ⟨by decide, by decide, by decide, by decide, ?_, by simp, by simp, by simp [ValWF, Marsh.Int32]⟩
+  simp [FramesWF, ValWF, Marsh.Int32, JanetModel.Gen.MarshCode.frameSize]
 
 /-- a description whose funcdefs are not in `seen_defs` order is rejected (the hypothesis of the theorems is not vacuous for
 the wrong reason) -/
